@@ -141,7 +141,7 @@ Proof.
         end.
         - apply find_some in EF. exists ar. split; [apply EF|exact H].
         - apply anyb_exists in H. exact H. }
-      clear H. destruct H' as [[a rest] [Hin Hc]]. cbn in Hc.
+      clear H. destruct H' as [[a rest] [Hin Hc]]. cbn [fst snd] in Hc.
       destruct (minimal a rest) eqn:Hmin; [|discriminate]. rename Hc into Hex.
       apply anyb_exists in Hex. destruct Hex as [s' [Hs' Hrec]].
       destruct (IH _ _ _ Hrec) as [l [sf [P [Rs [Rn F]]]]].
